@@ -219,7 +219,14 @@ bool GetUintEnvironmentVariable(const char *env_var_name, std::uint32_t &value)
 
   const char *end  = raw_value.c_str() + raw_value.length();
   char *actual_end = nullptr;
+  errno            = 0;
   const auto temp  = std::strtoull(raw_value.c_str(), &actual_end, 10);
+
+  if (!std::isdigit(static_cast<unsigned char>(raw_value[0])))
+  {
+    // strtoull accepts leading white space and a sign (negating modulo 2^64): not an unsigned number
+    actual_end = nullptr;
+  }
 
   if (errno == ERANGE)
   {
@@ -258,6 +265,7 @@ bool GetFloatEnvironmentVariable(const char *env_var_name, float &value)
 
   const char *end  = raw_value.c_str() + raw_value.length();
   char *actual_end = nullptr;
+  errno            = 0;
   value            = std::strtof(raw_value.c_str(), &actual_end);
 
   if (errno == ERANGE)
